@@ -536,13 +536,18 @@ def scan_cfg(mode, N="0", alpha="{}", lens="{}", pbytes="{}", qbytes="{}", fille
 ALLB = '{"swar8", "swar4", "sse42", "avx2", "neon"}'
 
 
-def scan_traces(res, thorough=False, variant=None, label="scan"):
+def scan_traces(res, thorough=False, variant=None, label="scan", neon=False):
     wd = os.path.join(WORK, "run", "%s-%s" % (res.prop, res.tier), label)
     shutil.rmtree(wd, ignore_errors=True)
     os.makedirs(wd)
     out = os.path.join(wd, "scan")
     args = ["scan", "--out", out, "--shards", str(NCPU), "--seed", str(res.seed)] + (["--thorough"] if thorough else [])
-    r = run_driver(args, variant=variant, timeout=3000)
+    if neon:
+        import neon as neonmod
+        bindir = neonmod.build(os.path.join(WORK, "run", "%s-%s" % (res.prop, res.tier), "neon-src"))
+        r = subprocess.run([os.path.join(bindir, "driver")] + args, capture_output=True, text=True, errors="replace", timeout=3000)
+    else:
+        r = run_driver(args, variant=variant, timeout=3000)
     if r.returncode != 0:
         res.violation("a scanner crashed while being driven directly (rc=%d): %s" % (r.returncode, r.stderr[-300:]),
                       {"kind": "scan-crash", "key": "scan-crash"})
@@ -554,7 +559,7 @@ def scan_traces(res, thorough=False, variant=None, label="scan"):
     res.evaluations += info["calls"]
     res.nontrivial += info["events"]
     res.extra.setdefault("scanner_backends_driven", {})[label] = {"backends": info["backends"], "provider": info["provider"], "calls": info["calls"]}
-    names = {0: "selected provider", 1: "swar", 2: "sse4.2", 3: "avx2"}
+    names = {0: "selected provider (%s)" % info["provider"], 1: "swar", 2: "sse4.2", 3: "avx2"}
     for tf, ok, idx, n, inv in results:
         if ok:
             continue
@@ -576,6 +581,7 @@ def c12(res):
                      pbytes=fam(t, "{0, 9, 32, 33, 58, 96, 126, 127, 128, 255}", "{0, 9, 10, 13, 31, 32, 33, 34, 58, 64, 96, 126, 127, 128, 255}"),
                      qbytes=fam(t, "{}", "{0, 127}"), fillers="{97, 9}", backends=ALLB), workers=14, timeout=3000)
     scan_traces(res, thorough=(t == "thorough"))
+    scan_traces(res, thorough=(t == "thorough"), neon=True, label="scan-neon-emulated")
     if t == "thorough":
         scan_traces(res, thorough=False, variant={"rustflags": "-C target-feature=+sse4.2", "subdir": "sse42ct"}, label="scan-sse42ct")
         scan_traces(res, thorough=False, variant={"rustflags": "-C target-feature=+avx2", "subdir": "avx2ct"}, label="scan-avx2ct")
